@@ -144,6 +144,23 @@ Theorem C11_archive_output_is_the_sources :
 Proof. split; [exact archive_output_tie|exact archive_steps_tie]. Qed.
 Print Assumptions C11_archive_output_is_the_sources.
 
+(* ... and the selection of the rows (VersionIndex.copy_entries_to, the subject of C11_selection): the batches the
+   model loads are those of the method TRANSLATED from the working tree -- the query chosen by the translated test on
+   (tasks is None, latest_only); the whole table in one bulk_load, or one query and one bulk_load per element of `tasks`
+   in order; and the SQL texts of version_index_queries.py are the ones the list functions transcribe.  A loop that
+   batches the tasks differently (seed C11/j: `IN (...)` over slices of 100), another query for a flag combination or an
+   edited SQL text breaks these obligations. *)
+Theorem C11_copy_entries_is_the_sources : forall src tasks latest,
+  batches src tasks latest =
+  match tasks with
+  | None => [query_by_code (gen_copy_query true latest) [] src]
+  | Some ts => map (fun T => query_by_code (gen_copy_query false latest) T src) ts
+  end /\
+  gen_copy_whole_table_is_one_bulk_load = true /\ gen_copy_per_task_in_order_counts_summed = true /\
+  gen_sql_texts_are_the_transcribed_ones = true.
+Proof. exact copy_batches_tie. Qed.
+Print Assumptions C11_copy_entries_is_the_sources.
+
 (* non-vacuity: `-o backup.tar.gz` with backup.tar.gz present is refused with one step; `-o new.tar.gz` (absent, parent a
    directory) whose tar fails enters 1..9, removes the partial file, re-raises and removes the index; success ends with
    the removal of the index *)
